@@ -10,35 +10,46 @@ from props.C14 import hermite, sorted_knots, slope_conditions, rows_of_last_syst
 
 CLAIM = {
     "claimed": True,
-    "category": "other",
-    "text": "BOUNDED (in tensor shapes) deductive verification, not counted as an unbounded proof. The real SQuad / "
-            "TrapzSQuad / SimpsonSQuad / CubicSplineSQuad code and their weight builders executed on tensors of concrete "
-            "small shapes with symbolic real entries (2 to 7 sample positions, all positions and values at once): "
-            "cumsum[r] equals the integral from x_0 to x_r of the interpolant - trapz: sum of (y_i+y_i+1)/2 dx_i; cspline: "
-            "sum of the exact integrals of the cubic Hermite pieces whose slopes make S'' continuous and satisfy the "
-            "requested boundary condition (default natural); simpson: parabolas through consecutive triples, pairs of "
-            "intervals for even r, the last interval from the parabola through the last three points for odd r, the "
-            "trapezoid for r = 1 - so cumsum[0] = 0 and cumsum[last] = integrate; the integrated dimension may be at "
-            "any position (positive or negative dim), the other dimensions are independent and keep their order with "
-            "keepdim True or False, 1-D y gives results shaped like y; a length that does not match x, a non-1-D x and "
-            "an unknown method are rejected; the default method is cspline.",
-    "note": "Bounded in the tensor shapes (stated per unit), unbounded in the values. Linearity in y follows from the "
-            "proved closed forms. Assumed: linalg.solve returns a solution of its system; floats are reals.",
-    "design_ref": "DESIGN.md section 6 C15",
+    "category": "proof",
+    "text": "For EVERY number of sample positions nx (tensors of symbolic length, units any_size[*]): the real SQuad / TrapzSQuad / "
+            "SimpsonSQuad / CubicSplineSQuad code and their weight builders (loops over range(.., nx, ..) cut at an invariant on a "
+            "generic matrix entry, reductions over the sample axis recorded with their summand, linalg.solve replaced by its "
+            "contract) satisfy, for 1-D y and all real positions and values: cumsum[0] = 0; for every r >= 1 the increment "
+            "cumsum[r] - cumsum[r'] is the exact integral of the interpolant over the piece ending at sample r - trapz: "
+            "(y_r-1 + y_r)/2 dx; cspline: the exact integral of the cubic Hermite piece whose slopes solve the spline system, "
+            "those slopes making S'' continuous at every interior knot and satisfying the requested boundary condition "
+            "(natural by default, clamped, not-a-knot, periodic); simpson: the parabola through three consecutive samples "
+            "over a pair of intervals for even r, over the last interval for odd r >= 3, the trapezoid for r = 1; and "
+            "cumsum[last] = integrate. BOUNDED in the tensor shapes (all values; reported under bounded_obligations, not "
+            "counted as proved): the integrated dimension at any position (positive or negative dim), independence and order "
+            "of the other dimensions with keepdim True / False, results shaped like y, rejection of a length that does not "
+            "match x, of a non-1-D x and of an unknown method, default method cspline - at 2 to 7 (thorough: 9) samples and "
+            "batches of 2 x 3.",
+    "note": "Assumed: linalg.solve returns a solution of its system; matrix products are associative (S (R y) = (S R) y); the "
+            "sum of a function that vanishes off a finite set of columns is its sum over that set (proved by induction on every "
+            "run as sum_lemma[*]); linearity of finite sums; floats are reals.",
+    "design_ref": "DESIGN.md sections 6 C15 and 11.8",
 }
 
 META = {
-    "level": "other",
-    "explanation": "bounded deductive verification: every obligation is proved by z3/cvc5 for all real values of the tensor entries, "
-                   "for each of the executed tensor shapes (2..7 sample positions, batches of 2 and 3); nothing is claimed for other shapes",
+    "level": "proof",
+    "shape_bounded_by_default": True,
+    "unbounded_units": ["any_size["],
+    "explanation": "units any_size[*]: proofs for every number of samples (LAM domain, pydv/lam.py + props/anysize.py); every other unit "
+                   "is a proof for all values at the tensor shapes it executes (2..7 sample positions, batches of 2 and 3) and is "
+                   "reported under bounded_obligations",
     "files": ["xitorch/integrate/squad.py", "xitorch/_impls/integrate/samples_quad.py", "xitorch/_impls/interpolate/interp_1d.py"],
     "functions_under_contract": ["xitorch.integrate.squad:SQuad.__init__/cumsum/integrate",
-                                 "xitorch._impls.integrate.samples_quad:get_trapz_weights, get_simpson_weights, get_cspline_grad_weights, "
-                                 "CubicSplineSQuad, WeightBasedSQuad, TrapzSQuad, SimpsonSQuad",
-                                 "xitorch._impls.interpolate.interp_1d:_get_spline_mat_inv"],
-    "trusted_base": ["pydv/arr.py: element-wise meaning of the torch operations used, views alias their base", "linalg.solve returns a solution",
-                     "floats are reals", "z3 / cvc5 nonlinear real arithmetic"],
-    "assumptions": ["shapes: 2..7 sample positions, batch 2 x 3", "floats are reals"],
+                                 "xitorch._impls.integrate.samples_quad:get_trapz_weights, get_simpson_weights, get_cspline_grad_weights "
+                                 "(loop invariants on a generic entry, all nx), CubicSplineSQuad, WeightBasedSQuad, TrapzSQuad, SimpsonSQuad",
+                                 "xitorch._impls.interpolate.interp_1d:_get_spline_mat_inv (all nx, every boundary condition)"],
+    "trusted_base": ["pydv/lam.py: tensors of symbolic size as functions of the index; basic indexing and diagonal() are views that "
+                     "write through; meaning of the torch operations used (zeros, cat, matmul, sum, einsum, reshape of leading unit "
+                     "dimensions)", "pydv/arr.py for the shape-bounded units", "linalg.solve returns a solution",
+                     "matrix products are associative; finite sums are linear", "floats are reals", "z3 / cvc5 (linear integer "
+                     "arithmetic with uninterpreted functions; nonlinear real arithmetic on rational identities in the interval widths)"],
+    "assumptions": ["1-D y in the any-size units; other layouts at shapes 2..7 x batches 2 x 3", "floats are reals",
+                    "periodic boundary condition: y[0] == y[-1] (the library's documented requirement)"],
     "not_applicable_parts": ["dtypes other than real (the code is dtype-generic torch arithmetic)"],
     "min_obligations": 30,
 }
@@ -283,6 +294,13 @@ def unit_rejections():
                         c.fail("%s.%s:wrong_length_is_rejected" % (meth, nm), "no exception")
                     except RuntimeError:
                         c.ok("%s.%s:wrong_length_is_rejected" % (meth, nm))
+                    # a single value along the integrated dimension is a wrong length as well (it would broadcast silently)
+                    for shp, dm in (((1,), -1), ((3, 1), -1), ((1, 3), 0)):
+                        try:
+                            f(arr.sym("y1", shp), dim=dm)
+                            c.fail("%s.%s:length_one_is_rejected" % (meth, nm), "no exception for y of shape %s, dim=%d" % (shp, dm))
+                        except RuntimeError:
+                            c.ok("%s.%s:length_one_is_rejected" % (meth, nm))
                     try:
                         f(arr.sym("y45", (4, 5)), dim=0) if nm == "cumsum" else f(arr.sym("y45", (4, 5)), dim=1)
                         c.ok("%s.%s:length_is_checked_on_the_chosen_dimension" % (meth, nm)) if nm == "cumsum" else \
